@@ -19,6 +19,8 @@ FC = 'concepts/algorithms/fcbo.py'
 VZ = 'concepts/visualize.py'
 AI = 'concepts/algorithms/__init__.py'
 CM = 'concepts/_common.py'
+TL = 'concepts/tools.py'
+DF = 'concepts/definitions.py'
 
 MUTANTS = [
     # (file, old, new, units, 'breaks'|'equivalent')
@@ -105,6 +107,28 @@ MUTANTS = [
     (LT, "concepts = tools.maximal(concepts, comparison=Concept.properly_subsumes)", "concepts = tools.maximal(concepts, comparison=Concept.properly_implies)", ['lattices.upset_union'], 'breaks'),
     (LM, "_next_concepts=operator.attrgetter('lower_neighbors')):", "_next_concepts=operator.attrgetter('upper_neighbors')):", ['members.downset'], 'breaks'),
     (LM, "        return self._intent.members()\n\n\nclass Atom", "        return self._extent.members()\n\n\nclass Atom", ['members.infimum_minimal'], 'breaks'),
+    (TL, "        idx = self._items.index(item)\n        self._seen.remove(item)\n        self._seen.add(new_item)",
+         "        self._seen.add(new_item)\n        idx = self._items.index(item)\n        self._seen.remove(item)", ['tools.Unique.replace'], 'breaks'),
+    (TL, "            self._seen.remove(item)\n            self._items.remove(item)", "            self._items.remove(item)", ['tools.Unique.discard'], 'breaks'),
+    (TL, "        if item not in self._seen:\n            self._seen.add(item)\n            self._items.append(item)",
+         "        self._seen.add(item)\n        self._items.append(item)", ['tools.Unique.add'], 'breaks'),
+    (TL, "return self._fromargs(self._seen.copy(), self._items[:])", "return self._fromargs(self._seen, self._items[:])", ['tools.Unique.copy'], 'breaks'),
+    (TL, "return self._fromargs(self._seen.copy(), self._items[:])", "return self._fromargs(self._seen.copy(), self._items)", ['tools.Unique.copy'], 'breaks'),
+    (TL, "            self._items.insert(new_index, item)", "            self._items.insert(new_index + 1, item)", ['tools.Unique.move'], 'breaks'),
+    (TL, "        if new_item in self._seen:\n            raise ValueError(f'{new_item!r} already in list')", "        pass", ['tools.Unique.replace'], 'breaks'),
+    (TL, "        return item in self._seen", "        return item in self._items", ['tools.Unique.__contains__'], 'equivalent'),
+    (DF, "        properties = tools.Unique(properties)\n", "        properties = set(properties)\n", ['definitions.set_object'], 'breaks'),
+    (DF, "        self._objects.remove(obj)\n        self._pairs.difference_update((obj, p) for p in self._properties)", "        self._objects.remove(obj)", ['definitions.remove_object'], 'breaks'),
+    (DF, "        self._pairs.difference_update((o, prop) for o in self._objects)", "        self._pairs.difference_update((prop, o) for o in self._objects)", ['definitions.remove_property'], 'breaks'),
+    (DF, "        self._objects.replace(old, new)\n        pairs = self._pairs\n        pairs |= {(new, p) for p in self._properties\n                  if (old, p) in pairs and not pairs.remove((old, p))}",
+         "        self._objects.replace(old, new)", ['definitions.rename_object'], 'breaks'),
+    (DF, "                  if (old, p) in pairs and not pairs.remove((old, p))}", "                  if (old, p) in pairs}", ['definitions.rename_object'], 'breaks'),
+    (DF, "        self._objects.add(obj)\n        self._properties |= properties\n        self._pairs.update((obj, p) for p in properties)",
+         "        self._properties |= properties\n        self._pairs.update((obj, p) for p in properties)\n        self._objects.add(obj)", ['definitions.add_object'], 'equivalent'),
+    (DF, "        self._properties |= properties\n        self._pairs.update((obj, p) for p in properties)", "        self._properties |= sorted(properties)\n        self._pairs.update((obj, p) for p in properties)", ['definitions.add_object'], 'breaks'),
+    (DF, "        if value:\n            self._pairs.add(pair)\n        else:\n            self._pairs.discard(pair)", "        if value:\n            self._pairs.add(pair)", ['definitions.__setitem__'], 'breaks'),
+    (DF, "            if p in properties:\n                pairs.add((obj, p))\n            else:\n                pairs.discard((obj, p))", "            if p in properties:\n                pairs.add((obj, p))", ['definitions.set_object'], 'breaks'),
+    (DF, "        self._properties.move(prop, index)", "        self._objects.move(prop, index)", ['definitions.move_property'], 'breaks'),
 ]
 
 
